@@ -75,6 +75,16 @@ func (e *Engine) verifyTop(fn *ssa.Function, c *Contract, res *FuncResult) {
 	if len(c.Results) != fn.Signature.Results().Len() {
 		e.unsupported("contract header of %s declares %d results, function has %d", c.Key, len(c.Results), fn.Signature.Results().Len())
 	}
+	for _, cl := range c.Clauses {
+		if cl.Broken == "" {
+			continue
+		}
+		if cl.Kind == "invariant" || cl.Kind == "decreases" {
+			e.note("dropped %s clause of loop %d: %s", cl.Kind, cl.Loop, cl.Broken)
+			continue
+		}
+		e.unsupported("the contract of %s no longer applies to the code: %s", c.Key, cl.Broken)
+	}
 	var args []Val
 	for _, p := range fn.Params {
 		v := e.fresh(e.sortOf(p.Type()), "p_"+p.Name())
